@@ -10,7 +10,9 @@ CHECKS = {
         technique="property-based testing (Hypothesis structured + raw float32 generators) against a NumPy float64 half-bucket oracle; idempotence round trip",
         text=("Generated-input search: ~2e4 (quick) / ~6e5 (thorough) float32 tensors per run over all binary exponents, column kinds, "
               "int8/int16/bfloat16/float32, extract_diagonal, eager and jit; every case is compared with an independent float64 oracle "
-              "(half bucket per column, stored range, zeros, diagonal, bucket size, re-quantisation idempotence). No absence proof."),
+              "(half bucket per column, stored range, zeros, diagonal, bucket size, re-quantisation idempotence); an optimizer-state driver "
+              "(pmap + memory reduction) checks that stored integers never wrap and that carried quantised state is bit-identical "
+              "between refreshes. No absence proof."),
         note="Trusted: NumPy float64 arithmetic; flush-to-zero float model for columns below N*2^-126 (stated in evidence.assumptions).",
         design="DESIGN.md section 3, C11"),
     "C17": dict(
@@ -34,8 +36,9 @@ CHECKS = {
         technique="property-based testing of the OCO init/update pairs over generated gradient sequences against closed forms, the FD bracket on an exact covariance, and exact full-matrix AdaGrad (NumPy float64)",
         text=("Generated-input search over (algorithm, shape, sketch size, delta, lr, gradient sequence): OGD/AdaGrad closed forms, last "
               "sketch row zero, orthonormal directions, two-sided FD bracket against the exact sum of scaled outer products with the "
-              "escaped mass recomputed independently, alpha bookkeeping, and S-AdaGrad == full-matrix AdaGrad on lossless histories. "
-              "~6e3 sequences / 4e4 steps quick. No absence proof."),
+              "escaped mass recomputed independently, alpha bookkeeping, and S-AdaGrad == full-matrix AdaGrad on lossless histories "
+              "(delta down to 1e-10, gradient scales down to 1e-6); a second driver runs train.run_dataset on synthetic datasets with a "
+              "linear loss and compares every recorded observation with the closed forms. ~5.5e3 sequences / 4e4 steps quick."),
         note="Trusted: NumPy float64 linear algebra (svd/eigh); x64 run of the real functions, eagerly and under jit, on copies of the state dict.",
         design="DESIGN.md section 3, C16"),
     "C01": dict(
@@ -132,9 +135,11 @@ CHECKS = {
         category="exploration",
         technique="property-based differential (metamorphic) testing on the real code: a blocked tensor vs its blocks as separate parameters, and a parameter alone vs with generated companion parameters, over generated block layouts with independent per-block gradient scales",
         text=("Generated-input search over block layouts (1-2 blocked axes, ragged last block), per-block scales spanning up to 1e12, "
-              "companions that change the global padding size, options and histories, for Distributed Shampoo, tearfree shampoo.apply and "
-              "the full tearfree chain (~400 layouts quick): with grafting NONE block slices equal the separate parameters' updates "
-              "(2e-5), with a grafting type they are positively collinear; a parameter's update and state are unchanged by companions."),
+              "companions that change the global padding size, rank-3 layouts with a small axis between the blocked axes, options and "
+              "histories, for Distributed Shampoo (replicated and sharded), tearfree shampoo.apply and the full tearfree chain (~330 "
+              "layouts quick): with grafting NONE block slices equal the separate parameters' updates (2e-5) and the last block equals "
+              "itself optimised entirely alone, with a grafting type slices are positively collinear; a parameter's update and state "
+              "are unchanged by companions."),
         note="Trusted: nothing beyond the real code run twice; float64 roots under x64 keep the differential noise at 1e-7.",
         design="DESIGN.md section 3, C08"),
     "C13": dict(
